@@ -33,6 +33,7 @@ CONSTANTS Blobs,      \* blob symbols
           GIds,       \* sequence of annotated tag symbols, in creation order
           Inits,      \* initial repository states
           GcOps,      \* sequence of GC variants [op, rd, age]
+          ConflictShapes, \* set of <<stage1, stage2, stage3>> blob triples (None = stage absent) a conflict may leave
           WithPromisor, WithLink, WithMidGc,
           MaxOps, Emit
 
@@ -88,7 +89,14 @@ Closure(s, X) == Grow(s, {}, X)
 
 RefRoots(s)   == {s.refs[n] : n \in {x \in RefNames : s.refs[x] # NoObj}}
 HeadRoots(s)  == IF s.head.det # None THEN {C(s.head.det)} ELSE {}
-IndexRoots(s) == {B(s.idx[p]) : p \in {x \in Paths : s.idx[x] # None}}
+\* the index: stage-0 entries (paths a, d/b, gitlink m) and one possibly unmerged path "u" whose
+\* conflict stages 1 (base), 2 (ours), 3 (theirs) each name a blob (None = stage absent).  Every blob
+\* the index names - in whatever stage - is staged content and a root.
+Stages == {"u1", "u2", "u3"}
+Unmerged(s)   == \E x \in Stages : s.idx[x] # None
+StageRoots(s) == {B(s.idx[p]) : p \in {x \in Stages : s.idx[x] # None}}
+Stage0Roots(s) == {B(s.idx[p]) : p \in {x \in Paths : s.idx[x] # None}}
+IndexRoots(s) == Stage0Roots(s) \cup StageRoots(s)
 Roots(s) == RefRoots(s) \cup HeadRoots(s) \cup IndexRoots(s)
 Reach(s) == Closure(s, Roots(s))
 Live(s)  == Reach(s) \cap s.objs
@@ -106,9 +114,10 @@ Commits(s) == {c \in {CIds[i] : i \in 1..Len(s.cm)} : Whole(s, C(c))}
 Loc(s, o) == IF o \in s.packed THEN "packed" ELSE "loose"
 LiveInfo(s) == LET CR == Closure(s, RefRoots(s))
                    CH == Closure(s, HeadRoots(s))
-                   CI == Closure(s, IndexRoots(s))
-                   via(o) == (IF o \in CR THEN {"ref"} ELSE {}) \cup (IF o \in CH THEN {"head"} ELSE {}) \cup (IF o \in CI THEN {"index"} ELSE {})
-               IN {[o |-> o, via |-> via(o), loc |-> Loc(s, o), kids |-> Content(s, o)] : o \in (CR \cup CH \cup CI) \cap s.objs}
+                   CI == Closure(s, Stage0Roots(s))
+                   CU == Closure(s, StageRoots(s))
+                   via(o) == (IF o \in CR THEN {"ref"} ELSE {}) \cup (IF o \in CH THEN {"head"} ELSE {}) \cup (IF o \in CI THEN {"index"} ELSE {}) \cup (IF o \in CU THEN {"unmerged"} ELSE {})
+               IN {[o |-> o, via |-> via(o), loc |-> Loc(s, o), kids |-> Content(s, o)] : o \in (CR \cup CH \cup CI \cup CU) \cap s.objs}
 
 \* ---------------------------------------------------------------- GC
 KeepSet(s, age) == IF age = "past" THEN s.objs ELSE Live(s)
@@ -137,9 +146,20 @@ Add(p, b) == Step("add", p, b, None, [st EXCEPT !.idx[p] = b, !.objs = @ \cup {B
 AddLink   == /\ WithLink /\ st.idx.m = None
              /\ Step("addlink", None, None, None, [st EXCEPT !.idx.m = Link])
 
+\* a merge / cherry-pick / stash-pop stopped on a conflict: path "u" gets conflict stages.  The stage blobs are
+\* written (as the merge machinery does) and nothing but the index needs to name them: the merged-in commit is
+\* known only to MERGE_HEAD, its branch may be gone, am -3 synthesises blobs that are in no commit at all.
+Conflict(b1, b2, b3) ==
+  /\ ~Unmerged(st)
+  /\ Step("conflict", b1, b2, b3, [st EXCEPT !.idx.u1 = b1, !.idx.u2 = b2, !.idx.u3 = b3,
+                                              !.objs = @ \cup {B(x) : x \in {b1, b2, b3} \ {None}}])
+\* the conflict is resolved by dropping the path (git rm): the stages go away, their blobs become garbage unless named elsewhere
+Resolve == /\ Unmerged(st)
+           /\ Step("resolve", None, None, None, [st EXCEPT !.idx.u1 = None, !.idx.u2 = None, !.idx.u3 = None])
+
 \* commit the index; `extra` = None or a second parent (merge commit)
 Commit(extra) ==
-  /\ Len(st.cm) < Len(CIds)
+  /\ Len(st.cm) < Len(CIds) /\ ~Unmerged(st)            \* an index with conflict stages cannot be committed
   /\ LET c == CIds[Len(st.cm) + 1]
          hc == HeadCommit(st)
          par == (IF hc = None THEN <<>> ELSE <<hc>>) \o (IF extra = None THEN <<>> ELSE <<extra>>)
@@ -214,6 +234,8 @@ Next ==
   /\ Len(hist) < MaxOps
   /\ \/ \E p \in Paths, b \in Blobs : st.idx[p] # b /\ Add(p, b)
      \/ AddLink
+     \/ \E c \in ConflictShapes : Conflict(c[1], c[2], c[3])
+     \/ Resolve
      \/ \E e \in {None} \cup CS : Commit(e)
      \/ \E c \in CS : ResetSoft(c)
      \/ \E c \in CS : CheckoutDetached(c)
